@@ -153,12 +153,24 @@ void Simplex::fireParameterChanged(const ParameterList& parameters)
       th = getParameterValue("theta" + TextTools::toString(i + 1));
       valpha_[i] = (1 - th) / th;
     }
+    // The unnormalized probabilities are the running products of the
+    // alpha's. They are rescaled as soon as they exceed 1, so that no
+    // product overflows when several theta's are close to 0.
     th = 1;
     vProb_[0] = 1;
     x = 1.0;
     for (unsigned int i = 0; i < dim_ - 1; i++)
     {
       th *= valpha_[i];
+      if (th > 1)
+      {
+        for (unsigned int j = 0; j <= i; j++)
+        {
+          vProb_[j] /= th;
+        }
+        x /= th;
+        th = 1;
+      }
       vProb_[i + 1] = th;
       x += vProb_[i + 1];
     }
